@@ -470,6 +470,10 @@ def ipa_case(rng, tier, i):
         f_perm = [rng.permutation(K) for _ in range(F)]
         spatial = np.stack([spectral[f, f_perm[f]] for f in range(F)]) * float(rng.choice([1.0, 2.0])) \
             + 0.1 * rng.normal(size=(F, K, T))
+    if i % 3 == 0:
+        # frames of very different likelihood level within one bin (a loud onset next to near-silence): a per-frame constant
+        # in the log-densities changes neither the posterior of the frame nor the best permutation of the bin
+        spectral = spectral + rng.choice([0.0, -2000.0, 1800.0], size=(F, 1, T))
     w = rng.random((K, 1)) + 0.1
     w /= w.sum()
     weight = w if rng.random() < 0.6 else np.broadcast_to(w, (F, K, 1)).copy()
